@@ -87,8 +87,7 @@ the same bytes per number (wire parsing is a function of the bytes). The length 
 theorem eqUnknown_iff_groups (x y : Unk)
     (hdet : unkBytes x = unkBytes y → ∀ n, unkGroup n x = unkGroup n y) :
     eqUnknown x y = true ↔ ∀ n, unkGroup n x = unkGroup n y := by
-  rw [eqUnknown_iff]
-  unfold unkSame
+  rw [eqUnknown_iff_code]
   constructor
   · rintro (h | ⟨_, h⟩)
     · exact hdet h
